@@ -479,6 +479,11 @@ func (k *c19) assertions(f *ssa.Function) {
 		if !ok || ta.CommaOk {
 			return
 		}
+		// an assertion of an interface value to its own static type can only fail for the nil interface (go/ssa writes
+		// one where a method value is taken from an interface): the call through it panics on nil all the same
+		if types.Identical(ta.X.Type(), ta.AssertedType) {
+			return
+		}
 		e := exprKey(k.c, ta)
 		// type switch lowering: an unchecked assert in a block entered only on the ok-edge of the same comma-ok assert is fine
 		if k.guardedByTypeTest(ta) {
@@ -711,6 +716,51 @@ func (k *c19) indexDischarged(f *ssa.Function, at ssa.Instruction, X, idx ssa.Va
 			}
 		}
 	}
+	// a rotated loop (`for i := range n`): the index is a φ at the head of the body, and every way into the body is the
+	// true edge of "incoming value < L" — the entry test 0 < L and the test at the foot of the body i+1 < L
+	if phi, isPhi := idx.(*ssa.Phi); isPhi && phi.Block() == at.Block() || isPhi && phi.Block().Dominates(at.Block()) {
+		var bound ssa.Value
+		okAll := len(phi.Edges) > 0 && nonNegative(idx)
+		for i, e := range phi.Edges {
+			pred := phi.Block().Preds[i]
+			iff, isIf := pred.Instrs[len(pred.Instrs)-1].(*ssa.If)
+			if !isIf || len(pred.Succs) != 2 || pred.Succs[0] != phi.Block() || pred.Succs[1] == phi.Block() {
+				okAll = false
+				break
+			}
+			bo, isB := iff.Cond.(*ssa.BinOp)
+			if !isB {
+				okAll = false
+				break
+			}
+			l, r, op := bo.X, bo.Y, bo.Op
+			if r == e && l != e {
+				l, r, op = r, l, flipOp(op)
+			}
+			same := l == e
+			if !same {
+				// (the constant 0 is a fresh value at each use)
+				if k1, isK1 := l.(*ssa.Const); isK1 {
+					if k2, isK2 := e.(*ssa.Const); isK2 && c.Path(k1, nil) == c.Path(k2, nil) {
+						same = true
+					}
+				}
+			}
+			if op != token.LSS || !same {
+				okAll = false
+				break
+			}
+			if bound == nil {
+				bound = r
+			} else if bound != r && c.Path(bound, nil) != c.Path(r, nil) {
+				okAll = false
+				break
+			}
+		}
+		if okAll && bound != nil && k.atMostLen(bound, lenX) {
+			return true
+		}
+	}
 	// induction index with dominating  idx < len(X)  true edge
 	for _, b := range f.Blocks {
 		iff, ok := b.Instrs[len(b.Instrs)-1].(*ssa.If)
@@ -736,6 +786,20 @@ func (k *c19) indexDischarged(f *ssa.Function, at ssa.Instruction, X, idx ssa.Va
 		rp := c.Path(r, nil)
 		if rp == lenX {
 			return true
+		}
+		// an array: its length is a constant of the type; idx < K with K <= that length
+		{
+			xt := X.Type().Underlying()
+			if p, isP := xt.(*types.Pointer); isP {
+				xt = p.Elem().Underlying()
+			}
+			if arr, isArr := xt.(*types.Array); isArr {
+				if kc, isK := r.(*ssa.Const); isK && kc.Value != nil {
+					if kv, exact := constant.Int64Val(kc.Value); exact && kv <= arr.Len() {
+						return true
+					}
+				}
+			}
 		}
 		// len of the very same SSA value (canonical paths of deeply nested φs are abbreviated and may differ)
 		if lc, isC := r.(*ssa.Call); isC {
